@@ -132,4 +132,462 @@ theorem run_tailInv {v : α → Nat} {k : Nat} (hk : 0 < k) {S : List α}
       intro a ha
       exact (List.pairwise_append.1 hS).2.2 a ha x (by simp)
 
+/-! ## 2. The counting argument -/
+
+/-- weight of a bin (a list of values) in the counting argument: its cardinality, plus one for every member
+    `≥ W/2`, plus one for every member `≥ W` -/
+def wt (W : Nat) (g : List Nat) : Nat :=
+  g.length + g.countP (fun u => decide (W ≤ 2 * u)) + g.countP (fun u => decide (W ≤ u))
+
+theorem wt_append (W : Nat) (g₁ g₂ : List Nat) : wt W (g₁ ++ g₂) = wt W g₁ + wt W g₂ := by
+  simp only [wt, List.length_append, List.countP_append]; omega
+
+theorem wt_perm (W : Nat) {g₁ g₂ : List Nat} (h : g₁.Perm g₂) : wt W g₁ = wt W g₂ := by
+  simp only [wt, h.length_eq, h.countP_eq]
+
+theorem wt_flatten (W : Nat) (Ls : List (List Nat)) : wt W Ls.flatten = sumL (Ls.map (wt W)) := by
+  induction Ls with
+  | nil => simp [wt, sumL]
+  | cons l Ls ih => simp only [List.flatten_cons, wt_append, List.map_cons, sumL, ih]
+
+/-- a covered bin weighs at least three: it holds a member `≥ W`, or two members one of which is `≥ W/2`,
+    or three members -/
+theorem wt_cover {W : Nat} (hW : 0 < W) : ∀ g : List Nat, W ≤ sumL g → 3 ≤ wt W g
+  | [], h => by simp [sumL] at h; omega
+  | [u], h => by
+    simp only [sumL] at h
+    have e1 : decide (W ≤ 2 * u) = true := by simp; omega
+    have e2 : decide (W ≤ u) = true := by simp; omega
+    simp [wt, e1, e2]
+  | [u, u'], h => by
+    simp only [sumL] at h
+    by_cases hu : W ≤ 2 * u
+    · have e1 : decide (W ≤ 2 * u) = true := by simpa using hu
+      simp only [wt, List.length_cons, List.length_nil, List.countP_cons, e1, if_true]
+      omega
+    · have e1 : decide (W ≤ 2 * u') = true := by simp; omega
+      simp only [wt, List.length_cons, List.length_nil, List.countP_cons, e1, if_true]
+      omega
+  | _ :: _ :: _ :: _, _ => by simp only [wt, List.length_cons]; omega
+
+theorem sumL_add_one_le_three : ∀ (l : List Nat), (∀ a ∈ l, a ≤ 3) → (∃ m ∈ l, m ≤ 2) →
+    sumL l + 1 ≤ 3 * l.length
+  | [], _, h => by obtain ⟨m, hm, _⟩ := h; cases hm
+  | a :: l, h, hm => by
+    have h1 := h a List.mem_cons_self
+    have h2 : sumL l ≤ 3 * l.length := by
+      have := sumL_le_length_mul (B := 3) l (fun s hs => h s (List.mem_cons_of_mem _ hs))
+      omega
+    obtain ⟨m, hm, hm2⟩ := hm
+    simp only [sumL, List.length_cons]
+    rcases List.mem_cons.1 hm with rfl | hm
+    · omega
+    · have := sumL_add_one_le_three l (fun s hs => h s (List.mem_cons_of_mem _ hs)) ⟨m, hm, hm2⟩
+      omega
+
+/-- **Counting core.**  `k ≥ 1` bins `LL` of weight `≤ 3` each, one of them of weight `≤ 2`, cannot hold the same
+    values as `k` bins of weight `≥ 3` each. -/
+theorem count_core {W k : Nat} {vals : List Nat} (LL Q : List (List Nat)) (hk : LL.length = k)
+    (hp : LL.flatten.Perm vals) (hQk : Q.length = k) (hQp : Q.flatten.Perm vals)
+    (hQ : ∀ g ∈ Q, 3 ≤ wt W g) (hLL : ∀ l ∈ LL, wt W l ≤ 3) (hmin : ∃ l ∈ LL, wt W l ≤ 2) : False := by
+  have h1 : 3 * Q.length ≤ sumL (Q.map (wt W)) := by
+    have := Part.length_mul_le_sumL (Q.map (wt W)) 3 0 (fun a ha => by
+      obtain ⟨g, hg, rfl⟩ := List.mem_map.1 ha
+      have := hQ g hg; omega)
+    simp only [List.length_map] at this
+    omega
+  have h2 : sumL (LL.map (wt W)) + 1 ≤ 3 * (LL.map (wt W)).length :=
+    sumL_add_one_le_three _ (fun a ha => by
+      obtain ⟨l, hl, rfl⟩ := List.mem_map.1 ha
+      exact hLL l hl) (by
+      obtain ⟨l, hl, h⟩ := hmin
+      exact ⟨wt W l, List.mem_map_of_mem hl, h⟩)
+  rw [← wt_flatten, wt_perm W hQp] at h1
+  rw [← wt_flatten, wt_perm W hp, List.length_map] at h2
+  omega
+
+/-- the weight of a bin of the LPT loop: at most three, and at most two for a bin of smallest sum.
+    `L` is the smallest sum (`hpre` is `PrefInv`), the items after the first one are `< W/2` (`htail`), all items
+    exceed `t`, and `2·L < W + 2·t ≤ 6·t`. -/
+theorem wt_bin {v : α → Nat} {W t L : Nat} (h2L : 2 * L < W + 2 * t) (hWt : W ≤ 4 * t) (htW : 2 * t ≤ W) :
+    ∀ l : List α, (∀ n, n < l.length → binSum v (l.take n) ≤ L) → (∀ c ∈ l.tail, 2 * v c < W) →
+      (∀ c ∈ l, t < v c) → wt W (l.map v) ≤ 3 ∧ (binSum v l ≤ L → wt W (l.map v) ≤ 2)
+  | [], _, _, _ => by simp [wt]
+  | [a], _, _, _ => by
+    have c1 := List.countP_le_length (p := fun u => decide (W ≤ 2 * u)) (l := [v a])
+    have c2 := List.countP_le_length (p := fun u => decide (W ≤ u)) (l := [v a])
+    simp only [List.length_cons, List.length_nil] at c1 c2
+    refine ⟨by simp only [wt, List.map_cons, List.map_nil, List.length_cons, List.length_nil]; omega, ?_⟩
+    intro hle
+    simp only [binSum, List.map_cons, List.map_nil, sumL] at hle
+    have e2 : decide (W ≤ v a) = false := by simp; omega
+    by_cases h4 : W ≤ 2 * v a
+    · have e4 : decide (W ≤ 2 * v a) = true := by simpa using h4
+      simp [wt, e2, e4]
+    · have e4 : decide (W ≤ 2 * v a) = false := by simpa using h4
+      simp [wt, e2, e4]
+  | [a, c], hpre, htail, hbig => by
+    have h1 := hpre 1 (by simp)
+    simp only [List.take_succ_cons, List.take_zero, binSum, List.map_cons, List.map_nil, sumL] at h1
+    have h2 := htail c (by simp)
+    have h3 := hbig c (by simp)
+    have e1 : decide (W ≤ v a) = false := by simp; omega
+    have e2 : decide (W ≤ 2 * v c) = false := by simp; omega
+    have e3 : decide (W ≤ v c) = false := by simp; omega
+    constructor
+    · by_cases h4 : W ≤ 2 * v a
+      · have e4 : decide (W ≤ 2 * v a) = true := by simpa using h4
+        simp [wt, e1, e2, e3, e4]
+      · have e4 : decide (W ≤ 2 * v a) = false := by simpa using h4
+        simp [wt, e1, e2, e3, e4]
+    · intro hle
+      simp only [binSum, List.map_cons, List.map_nil, sumL] at hle
+      have e4 : decide (W ≤ 2 * v a) = false := by simp; omega
+      simp [wt, e1, e2, e3, e4]
+  | [a, b, c], hpre, htail, hbig => by
+    have h1 := hpre 2 (by simp)
+    simp only [List.take_succ_cons, List.take_zero, binSum, List.map_cons, List.map_nil, sumL] at h1
+    have h2 := htail c (by simp)
+    have h2' := htail b (by simp)
+    have h3 := hbig c (by simp)
+    have h3' := hbig b (by simp)
+    have e1 : decide (W ≤ v a) = false := by simp; omega
+    have e2 : decide (W ≤ 2 * v c) = false := by simp; omega
+    have e3 : decide (W ≤ v c) = false := by simp; omega
+    have e4 : decide (W ≤ 2 * v a) = false := by simp; omega
+    have e5 : decide (W ≤ 2 * v b) = false := by simp; omega
+    have e6 : decide (W ≤ v b) = false := by simp; omega
+    constructor
+    · simp [wt, e1, e2, e3, e4, e5, e6]
+    · intro hle
+      simp only [binSum, List.map_cons, List.map_nil, sumL] at hle
+      have h3'' := hbig a (by simp)
+      omega
+  | a :: b :: c :: d :: r, hpre, _, hbig => by
+    exfalso
+    have h1 := hpre 3 (by simp)
+    simp only [List.take_succ_cons, List.take_zero, binSum, List.map_cons, List.map_nil, sumL] at h1
+    have h3 := hbig a (by simp)
+    have h4 := hbig b (by simp)
+    have h5 := hbig c (by simp)
+    omega
+
+/-! ## 3. All items large: `2·L ≥ W + 2·t` -/
+
+/-- the case without peeling: the `(k+1)`-th value is below `W/2` -/
+theorem run_large_core {v : α → Nat} {k : Nat} (hk : 0 < k) {xs : List α}
+    (hS : xs.Pairwise (fun a c => v c ≤ v a)) {W t : Nat} (Q : List (List Nat)) (hQk : Q.length = k)
+    (hQp : Q.flatten.Perm (xs.map v)) (hQ : ∀ l ∈ Q, W ≤ sumL l) (hbig : ∀ x ∈ xs, t < v x)
+    (hWt : W ≤ 4 * t) (htW : 2 * t ≤ W) (hy : 2 * (xs.map v).getD k 0 < W) :
+    W + 2 * t ≤ 2 * minL (run v k xs).sums := by
+  apply Classical.byContradiction
+  intro hcon
+  have h2L : 2 * minL (run v k xs).sums < W + 2 * t := by omega
+  have hW : 0 < W := by omega
+  obtain ⟨h1, h2, h3⟩ := run_valid v hk xs
+  have hc : (run v k xs).sums = (run v k xs).lists.map (binSum v) := h3
+  have hpref := run_prefInv v hk xs
+  have htail := run_tailInv hk hS (getD_spec v k hS) xs [] (by simp)
+  have hne := run_sums_ne_nil v hk xs
+  have hmem := Part.minL_mem hne
+  rw [hc] at hmem
+  obtain ⟨l₀, hl₀, e₀⟩ := List.mem_map.1 hmem
+  rw [← hc] at e₀
+  have hbin : ∀ l ∈ (run v k xs).lists, wt W (l.map v) ≤ 3 ∧
+      (binSum v l ≤ minL (run v k xs).sums → wt W (l.map v) ≤ 2) := fun l hl =>
+    wt_bin h2L hWt htW l (hpref l hl) (fun c hc' => by have := htail l hl c hc'; omega)
+      (fun c hc' => hbig c (h1.mem_iff.1 (List.mem_flatten.2 ⟨l, hl, hc'⟩)))
+  exact count_core (W := W) (k := k) (vals := xs.map v) ((run v k xs).lists.map (List.map v)) Q
+    (by simpa using h2) (by rw [← List.map_flatten]; exact h1.map v) hQk hQp
+    (fun g hg => wt_cover hW g (hQ g hg))
+    (fun l' hl' => by
+      obtain ⟨l, hl, rfl⟩ := List.mem_map.1 hl'
+      exact (hbin l hl).1)
+    ⟨l₀.map v, List.mem_map_of_mem hl₀, (hbin l₀ hl₀).2 (by omega)⟩
+
+/-- **All items large.**  For the LPT loop on an ordered list all of whose values exceed `t`, where
+    `W/4 ≤ t ≤ W/2` and the values can be split into `k` bins of sum `≥ W`:  `L ≥ W/2 + t`
+    (`L` the smallest sum of LPT).
+
+    Induction on `k`.  If the `(k+1)`-th value is `≥ W/2 > L/2` the first pair is peeled (`peel_first_pair`).
+    Otherwise count: with `L < W/2 + t ≤ 3t` every LPT bin holds at most three items; a bin of three items holds
+    no item `≥ W/2`, a bin of two items at most one, a bin of smallest sum none.  So the weight
+    `#items + #{items ≥ W/2} + #{items ≥ W}` of an LPT bin is `≤ 3`, and `≤ 2` for a bin of smallest sum, whereas
+    every bin of sum `≥ W` has weight `≥ 3`. -/
+theorem run_large {v : α → Nat} : ∀ (k : Nat), 0 < k → ∀ (xs : List α),
+    xs.Pairwise (fun a c => v c ≤ v a) → ∀ (W t : Nat) (Q : List (List Nat)), Q.length = k →
+    Q.flatten.Perm (xs.map v) → (∀ l ∈ Q, W ≤ sumL l) → (∀ x ∈ xs, t < v x) → W ≤ 4 * t → 2 * t ≤ W →
+    W + 2 * t ≤ 2 * minL (run v k xs).sums := by
+  intro k
+  induction k with
+  | zero => intro h; omega
+  | succ k' ih =>
+    intro hk xs hS W t Q hQk hQp hQ hbig hWt htW
+    by_cases hy : 2 * (xs.map v).getD (k' + 1) 0 < W
+    · exact run_large_core hk hS Q hQk hQp hQ hbig hWt htW hy
+    · have hsp := run_spread hk hS Q hQk hQp hQ
+      by_cases hk' : k' = 0
+      · subst hk'
+        simp only [Nat.zero_add, Nat.one_mul] at hsp ⊢
+        omega
+      · apply Classical.byContradiction
+        intro hcon
+        have hklt : k' + 1 < xs.length := by
+          apply Nat.lt_of_not_le
+          intro hle
+          have : (xs.map v)[k' + 1]? = none := List.getElem?_eq_none (by simpa using hle)
+          simp [List.getD_eq_getElem?_getD, this] at hy
+          omega
+        have ey : (xs.map v).getD (k' + 1) 0 = v xs[k' + 1] := by
+          simp [List.getD_eq_getElem?_getD, hklt]
+        rw [ey] at hy
+        have hk'pos : 0 < k' := Nat.pos_of_ne_zero hk'
+        obtain ⟨ys, hsub, hL', _, Q', hQ'k, hQ'p, hQ'⟩ :=
+          peel_first_pair hk'pos hS hklt (by omega) Q hQk hQp hQ
+        have key := ih hk'pos ys (hS.sublist hsub) W t Q' hQ'k hQ'p hQ'
+          (fun x hx => hbig x (hsub.subset hx)) hWt htW
+        rw [hL'] at key
+        exact hcon key
+
+/-- the exact constant when every value exceeds `k·W/(4k−2)` (`run_large` for the values multiplied by `4k−2`,
+    with `t = k·W`) -/
+theorem run_large_exact {v : α → Nat} {k : Nat} (hk : 0 < k) {xs : List α}
+    (hS : xs.Pairwise (fun a c => v c ≤ v a)) {W : Nat} (Q : List (List Nat)) (hQk : Q.length = k)
+    (hQp : Q.flatten.Perm (xs.map v)) (hQ : ∀ l ∈ Q, W ≤ sumL l)
+    (hbig : ∀ x ∈ xs, k * W < (4 * k - 2) * v x) :
+    3 * k * W + 2 * minL (run v k xs).sums ≤ 4 * k * minL (run v k xs).sums + W := by
+  obtain ⟨k', rfl⟩ : ∃ k', k = k' + 1 := ⟨k - 1, by omega⟩
+  have hc : 0 < 4 * (k' + 1) - 2 := by omega
+  have hrun : run (fun a => (4 * (k' + 1) - 2) * v a) (k' + 1) xs =
+      Scale.scaleBins (4 * (k' + 1) - 2) (run v (k' + 1) xs) := by
+    unfold run
+    rw [← Scale.foldl_greedyStep_scale v hc, Scale.new_scale]
+  have key := run_large (v := fun a => (4 * (k' + 1) - 2) * v a) (k' + 1) hk xs
+    (hS.imp (fun h => Nat.mul_le_mul_left _ h)) ((4 * (k' + 1) - 2) * W) ((k' + 1) * W)
+    (Q.map (List.map ((4 * (k' + 1) - 2) * ·))) (by simpa using hQk)
+    (by
+      rw [← List.map_flatten]
+      have := hQp.map ((4 * (k' + 1) - 2) * ·)
+      rw [List.map_map] at this
+      exact this)
+    (by
+      intro l' hl'
+      obtain ⟨l, hl, rfl⟩ := List.mem_map.1 hl'
+      rw [Scale.sumL_map_mul]
+      exact Nat.mul_le_mul_left _ (hQ l hl))
+    hbig
+    (by
+      have e : 4 * (k' + 1) - 2 = 4 * k' + 2 := by omega
+      rw [e]; nlinarith)
+    (by
+      have e : 4 * (k' + 1) - 2 = 4 * k' + 2 := by omega
+      rw [e]; nlinarith)
+  rw [hrun, Scale.scaleBins_sums, Scale.minL_map_mul] at key
+  have e : 4 * (k' + 1) - 2 = 4 * k' + 2 := by omega
+  rw [e] at key
+  nlinarith
+
+/-! ## 4. Induction over the prefixes: the last item lands on the bin of smallest final sum -/
+
+/-- remove a value from a cover: the level drops by at most that value -/
+theorem cover_remove {W z k : Nat} {vals : List Nat} (Q : List (List Nat)) (hQk : Q.length = k)
+    (hQp : Q.flatten.Perm (vals ++ [z])) (hQ : ∀ l ∈ Q, W ≤ sumL l) :
+    ∃ Q' : List (List Nat), Q'.length = k ∧ Q'.flatten.Perm vals ∧ ∀ l ∈ Q', W - z ≤ sumL l := by
+  obtain ⟨l, hl, hzl⟩ := List.mem_flatten.1 ((hQp.mem_iff (a := z)).2 (by simp))
+  have pQ := List.perm_cons_erase hl
+  have pz := List.perm_cons_erase hzl
+  refine ⟨l.erase z :: Q.erase l, ?_, ?_, ?_⟩
+  · have := pQ.length_eq; simp only [List.length_cons] at this ⊢; omega
+  · have h1 : Q.flatten.Perm (z :: (l.erase z ++ (Q.erase l).flatten)) := by
+      refine pQ.flatten.trans ?_
+      simp only [List.flatten_cons]
+      exact pz.append_right _
+    have h2 : (vals ++ [z]).Perm (z :: vals) := by simp
+    simpa using (h1.symm.trans (hQp.trans h2)).cons_inv
+  · intro l' hl'
+    rcases List.mem_cons.1 hl' with rfl | hl'
+    · have := hQ l hl
+      rw [Part.sumL_perm pz, sumL_cons] at this
+      omega
+    · have := hQ l' (List.mem_of_mem_erase hl'); omega
+
+/-- **The last item lands on the bin of smallest final sum.**  If the bound holds for `P` (against every cover)
+    and the smallest sum after the next item `x` is the old smallest sum plus `x`, the bound holds for
+    `P ++ [x]`: the cover loses at most `x`, LPT's smallest sum gains exactly `x`. -/
+theorem run_snoc_onmin {v : α → Nat} {k : Nat} (hk : 0 < k) (P : List α) (x : α) {W : Nat}
+    (Q : List (List Nat)) (hQk : Q.length = k) (hQp : Q.flatten.Perm ((P ++ [x]).map v))
+    (hQ : ∀ l ∈ Q, W ≤ sumL l)
+    (ih : ∀ (W' : Nat) (Q' : List (List Nat)), Q'.length = k → Q'.flatten.Perm (P.map v) →
+      (∀ l ∈ Q', W' ≤ sumL l) →
+      3 * k * W' + 2 * minL (run v k P).sums ≤ 4 * k * minL (run v k P).sums + W')
+    (hT : minL (run v k (P ++ [x])).sums = minL (run v k P).sums + v x) :
+    3 * k * W + 2 * minL (run v k (P ++ [x])).sums ≤ 4 * k * minL (run v k (P ++ [x])).sums + W := by
+  obtain ⟨Q', hQ'k, hQ'p, hQ'⟩ := cover_remove (z := v x) (vals := P.map v) Q hQk (by simpa using hQp) hQ
+  have key := ih (W - v x) Q' hQ'k hQ'p hQ'
+  rw [hT]
+  obtain ⟨k', rfl⟩ : ∃ k', k = k' + 1 := ⟨k - 1, by omega⟩
+  rcases Nat.lt_or_ge (v x) W with hlt | hge
+  · obtain ⟨W', rfl⟩ : ∃ W', W = W' + v x := ⟨W - v x, by omega⟩
+    rw [Nat.add_sub_cancel] at key
+    nlinarith
+  · nlinarith
+
+/-! ## 5. Two bins -/
+
+theorem cover_nil_level {W k : Nat} (hk : 0 < k) (Q : List (List Nat)) (hQk : Q.length = k)
+    (hQp : Q.flatten.Perm []) (hQ : ∀ l ∈ Q, W ≤ sumL l) : W = 0 := by
+  match Q, hQk with
+  | [], h => simp at h; omega
+  | l :: Q', _ =>
+    have hl : l = [] := by
+      cases l with
+      | nil => rfl
+      | cons a t =>
+        have : a ∈ (([] : List Nat)) := hQp.mem_iff.1 (by simp)
+        cases this
+    have := hQ l (by simp)
+    rw [hl] at this
+    simpa [sumL] using this
+
+/-- the new smallest sum after one step on two bins -/
+theorem two_bins_step {s : List Nat} (hs : s.length = 2) (j a m : Nat) (hj : j < 2)
+    (hm : s[j]'(by omega) = m) (hle : ∀ u ∈ s, m ≤ u)
+    (hne : minL (s.modify j (· + a)) ≠ m + a) :
+    ∀ u ∈ s.modify j (· + a), u ≤ minL (s.modify j (· + a)) + a := by
+  match s, hs with
+  | [s0, s1], _ =>
+    have h0 := hle s0 (by simp)
+    have h1 := hle s1 (by simp)
+    match j, hj with
+    | 0, _ =>
+      simp only [List.getElem_cons_zero] at hm
+      subst hm
+      simp only [List.modify_zero_cons, minL] at hne ⊢
+      intro u hu
+      simp only [List.mem_cons, List.not_mem_nil, or_false] at hu
+      rcases hu with rfl | rfl <;> omega
+    | 1, _ =>
+      simp only [List.getElem_cons_succ, List.getElem_cons_zero] at hm
+      subst hm
+      simp only [List.modify_succ_cons, List.modify_zero_cons, minL] at hne ⊢
+      intro u hu
+      simp only [List.mem_cons, List.not_mem_nil, or_false] at hu
+      rcases hu with rfl | rfl <;> omega
+
+/-- **Two bins, exact constant `5/6`** for the LPT loop on an ordered list, against an arbitrary cover.
+
+    Induction over the prefixes.  Let `x` be the last (smallest) item.
+    * the smallest sum grows by `x`: `run_snoc_onmin`;
+    * otherwise the bin that received `x` exceeds the other one (which has the smallest sum `L`) by at most `x`:
+      if `6·x ≤ 2·W` this is the certificate `run_maxmin_cert`; if `6·x > 2·W` all items are large: `run_large_exact`. -/
+theorem run_maxmin_two {v : α → Nat} : ∀ (xs : List α), xs.Pairwise (fun a c => v c ≤ v a) →
+    ∀ (W : Nat) (Q : List (List Nat)), Q.length = 2 → Q.flatten.Perm (xs.map v) → (∀ l ∈ Q, W ≤ sumL l) →
+    3 * 2 * W + 2 * minL (run v 2 xs).sums ≤ 4 * 2 * minL (run v 2 xs).sums + W := by
+  intro xs
+  induction xs using Oracle.rev_induction with
+  | nil =>
+    intro _ W Q hQk hQp hQ
+    have := cover_nil_level (by decide) Q hQk (by simpa using hQp) hQ
+    omega
+  | snoc P x ih =>
+    intro hS W Q hQk hQp hQ
+    have hk : 0 < 2 := by decide
+    obtain ⟨hSP, _, hPx⟩ := List.pairwise_append.1 hS
+    by_cases hT : minL (run v 2 (P ++ [x])).sums = minL (run v 2 P).sums + v x
+    · exact run_snoc_onmin hk P x Q hQk hQp hQ (fun W' Q' h1 h2 h3 => ih hSP W' Q' h1 h2 h3) hT
+    · by_cases hx : (4 * 2 - 2) * v x ≤ 2 * W
+      · -- certificate
+        refine run_maxmin_cert hk Q hQk hQp hQ (v x) ?_ hx
+        intro l hl
+        right
+        obtain ⟨_, _, hcons⟩ := run_valid v hk (P ++ [x])
+        have hc : (run v 2 (P ++ [x])).sums = (run v 2 (P ++ [x])).lists.map (binSum v) := hcons
+        have hmem : binSum v l ∈ (run v 2 (P ++ [x])).sums := by rw [hc]; exact List.mem_map_of_mem hl
+        have hne := run_sums_ne_nil v hk P
+        have hlt := Part.argmin_lt hne
+        have hlen := run_sums_length v hk P
+        rw [run_snoc] at hmem hT ⊢
+        simp only [greedyStep, Part.add_sums] at hmem hT ⊢
+        exact two_bins_step hlen _ _ _ (by omega) (Part.getElem_argmin hlt)
+          (fun u hu => Part.minL_le hu) hT _ hmem
+      · -- all items are large
+        refine run_large_exact hk hS Q hQk hQp hQ ?_
+        intro a ha
+        have hax : v x ≤ v a := by
+          rcases List.mem_append.1 ha with ha | ha
+          · exact hPx a ha x (by simp)
+          · simp at ha; rw [ha]
+        have := Nat.mul_le_mul_left (4 * 2 - 2) hax
+        omega
+
+/-! ## 6. Statements about `greedy` -/
+
+/-- **C08 for two bins (Csirik–Kellerer–Woeginger, `k = 2`)**: LPT's smallest sum is at least `5/6` of the optimal
+    smallest sum. -/
+theorem greedy_maxmin_two {v : α → Nat} {items : List α} {opt : Nat}
+    (hopt : IsOptimalValue .maxSmallest 2 (items.map v) (-(opt : Int))) :
+    5 * opt ≤ 6 * minL (greedy v 2 items).sums := by
+  obtain ⟨W, hW, Q, hQk, hQp, hQ⟩ := cover_of_opt (by decide) hopt
+  have hW' : W = opt := by exact_mod_cast hW
+  subst hW'
+  have key := run_maxmin_two (v := v) (sortDesc v items) (Part.sortDesc_sorted v items) W Q hQk
+    (hQp.trans ((Part.sortDesc_perm v items).map v).symm) hQ
+  rw [greedy_eq_run]
+  omega
+
+/-- non-vacuity and tightness: `[3, 3, 2, 2, 2]`, optimal smallest sum `6`, LPT's smallest sum `5`: `5·6 = 6·5` -/
+example : 5 * 6 ≤ 6 * minL (greedy id 2 [3, 3, 2, 2, 2]).sums :=
+  greedy_maxmin_two (v := id) optmin_33222
+example : 5 * 6 = 6 * minL (greedy id 2 [3, 3, 2, 2, 2]).sums := by decide
+
+/-- **All items large: the exact constant for every number of bins.**  If every item exceeds
+    `k·OPT/(4k−2)`, then `(3k−1)·OPT ≤ (4k−2)·(smallest sum of LPT)`.  (Together with
+    `MaxMin.greedy_maxmin_partial_cert` — all *last* items of the bins with at least two items small — this leaves
+    open only the mixed case.) -/
+theorem greedy_maxmin_partial_large {v : α → Nat} {k : Nat} {items : List α} (hk : 0 < k) {opt : Nat}
+    (hopt : IsOptimalValue .maxSmallest k (items.map v) (-(opt : Int)))
+    (hbig : ∀ x ∈ items, k * opt < (4 * k - 2) * v x) :
+    (3 * k - 1) * opt ≤ (4 * k - 2) * minL (greedy v k items).sums := by
+  obtain ⟨W, hW, Q, hQk, hQp, hQ⟩ := cover_of_opt hk hopt
+  have hW' : W = opt := by exact_mod_cast hW
+  subst hW'
+  rw [greedy_eq_run]
+  exact arith_final hk (run_large_exact hk (Part.sortDesc_sorted v items) Q hQk
+    (hQp.trans ((Part.sortDesc_perm v items).map v).symm) hQ
+    (fun x hx => hbig x ((Part.sortDesc_perm v items).mem_iff.1 hx)))
+
+/-- **All items above `t`, `OPT/4 ≤ t ≤ OPT/2`**: LPT's smallest sum is at least `OPT/2 + t`, for every number of
+    bins. -/
+theorem greedy_maxmin_partial_half_plus {v : α → Nat} {k : Nat} {items : List α} (hk : 0 < k) {opt : Nat}
+    (hopt : IsOptimalValue .maxSmallest k (items.map v) (-(opt : Int))) (t : Nat)
+    (hbig : ∀ x ∈ items, t < v x) (h1 : opt ≤ 4 * t) (h2 : 2 * t ≤ opt) :
+    opt + 2 * t ≤ 2 * minL (greedy v k items).sums := by
+  obtain ⟨W, hW, Q, hQk, hQp, hQ⟩ := cover_of_opt hk hopt
+  have hW' : W = opt := by exact_mod_cast hW
+  subst hW'
+  rw [greedy_eq_run]
+  exact run_large k hk (sortDesc v items) (Part.sortDesc_sorted v items) W t Q hQk
+    (hQp.trans ((Part.sortDesc_perm v items).map v).symm) hQ
+    (fun x hx => hbig x ((Part.sortDesc_perm v items).mem_iff.1 hx)) h1 h2
+
+/-- non-vacuity: `[10, 10, 7, 7, 7]` on two bins: `OPT = 20`, every item exceeds `2·20/6`; LPT's smallest sum is
+    `17`: `5·20 = 100 ≤ 102 = 6·17` -/
+theorem optmin_10_10_7_7_7 : IsOptimalValue .maxSmallest 2 ([10, 10, 7, 7, 7].map id) (-((20 : Nat) : Int)) := by
+  refine ⟨⟨[0, 0, 1, 1, 1], ⟨rfl, by decide⟩, by decide⟩, ?_⟩
+  intro asg hasg
+  obtain ⟨Q, hQk, hQp, hQs⟩ := assignment_partition hasg
+  have h1 := length_mul_minL_le (sumsOf 2 ([10, 10, 7, 7, 7].map id) asg)
+  rw [← hQs, ← sumL_flatten, Part.sumL_perm hQp, List.length_map, hQk] at h1
+  simp only [Objective.value, Bool.false_eq_true, if_false]
+  have : sumL ([10, 10, 7, 7, 7].map id) = 41 := by decide
+  rw [← hQs]
+  omega
+
+example : (3 * 2 - 1) * 20 ≤ (4 * 2 - 2) * minL (greedy id 2 [10, 10, 7, 7, 7]).sums :=
+  greedy_maxmin_partial_large (v := id) (by decide) optmin_10_10_7_7_7 (by decide)
+example : 20 + 2 * 6 ≤ 2 * minL (greedy id 2 [10, 10, 7, 7, 7]).sums :=
+  greedy_maxmin_partial_half_plus (v := id) (by decide) optmin_10_10_7_7_7 6 (by decide) (by decide) (by decide)
+example : 5 * 20 ≤ 6 * minL (greedy id 2 [10, 10, 7, 7, 7]).sums :=
+  greedy_maxmin_two (v := id) optmin_10_10_7_7_7
+
 end Prtpy.MaxMin3
